@@ -393,10 +393,13 @@ Proof.
   revert b. induction a as [|x a IH]; destruct b as [|y b]; simpl; try congruence.
   intros H. apply andb_prop in H. destruct H as [H1 H2]. apply Ascii.eqb_eq in H1. f_equal; auto.
 Qed.
-Lemma reads_tag w : reads (rd_tag w) [RTag w] tt.
+Lemma wlist_eqb_refl l : wlist_eqb l l = true.
+Proof. induction l; simpl; auto. rewrite weqb_refl; auto. Qed.
+(* the words of a name that is one good word *)
+Lemma tag_words_good w : good_word w = true -> tag_words w = [w].
 Proof.
-  intros s s0 E. unfold rd_tag. rewrite <- rword_sk, E, rword_sk. simpl.
-  rewrite weqb_refl. exists ([] :: s). auto.
+  unfold good_word. intros H. apply andb_prop in H. destruct H as [H Hc]. apply andb_prop in H. destruct H as [Hn Hg].
+  unfold tag_words. rewrite <- (app_nil_r w) at 1. rewrite segs_word; auto. simpl. rewrite app_nil_r, Hn. reflexivity.
 Qed.
 
 Lemma mapM_map {A B} (p : word -> option B) (pr : A -> word) (f : A -> B) l :
@@ -499,11 +502,10 @@ Lemma nf_roundtrip {A} name (body : reader A) rs a :
   nf_read name body (lex (print (nf_write name rs))) = Some a.
 Proof.
   intros H Hn Hg. unfold nf_read, nf_write.
-  assert (R : reads (rd_tag (W name) ;;; body) (RTag (W name) :: rs) a).
-  { apply reads_bind_cons with (a := tt); auto. apply reads_tag. }
-  destruct (reads_run _ _ _ R) as (s1 & E).
-  - simpl. rewrite Hn, Hg. reflexivity.
-  - rewrite E. reflexivity.
+  rewrite lex_print by (simpl; rewrite Hn, Hg; reflexivity).
+  cbn [layout fold_right lay]. unfold bind, rd_tag.
+  rewrite (tag_words_good _ Hn). cbn [wlist_eqb]. rewrite weqb_refl. cbn [andb].
+  destruct (H [[]] (layout rs [[]]) eq_refl) as (s1 & E & _). unfold layout in E. rewrite E. reflexivity.
 Qed.
 
 (* an empty vector followed by any data is not read back (the reader takes the next data line) *)
